@@ -145,6 +145,7 @@ def independent(adapter, d):
                 con.close()
         return out
     if adapter == "csvfile":
+        csv.field_size_limit(1 << 30)
         for f in files:
             rows = list(csv.reader(open(f, newline="")))
             hdr = None
@@ -186,7 +187,130 @@ def matching_reader(adapter, d):
     return out
 
 
+def bulk_specs(prog):
+    """Long write programs (every record has a unique n): ["hot", N, pad] one long-lived type between N incidental ones; ["bigmix", size, k]
+    k small records, then the FIRST record of another type carrying `size` bytes, then small ones of both; ["bigknown", size, k] the big
+    value in a record of the type already in use; ["many", N, pad] N records of one type; ["walk", edge] text sizes walking over edge."""
+    out = []
+    n = [0]
+
+    def one(pad=0, fill="h"):
+        n[0] += 1
+        return rs("w/one", [["string", "s"], ["varint", "n"]], ["S('%s', %d)" % (fill, pad), str(n[0])])
+
+    def two(size=2):
+        n[0] += 1
+        return rs("w/two", [["varint", "n"], ["bytes", "b"]], [str(n[0]), "S(b'\\x07', %d)" % size])
+
+    kind = prog[0]
+    if kind == "hot":
+        for i in range(prog[1]):
+            out.append(one(prog[2]))
+            n[0] += 1
+            out.append(rs("w/inc%d" % i, [["varint", "n"], ["string", "s%d" % i]], [str(n[0]), "'v'"]))
+    elif kind == "bigmix":
+        out += [one(3) for _ in range(prog[2])] + [two(prog[1]), one(3), two(), one(3)]
+    elif kind == "bigknown":
+        out += [one(3) for _ in range(prog[2])] + [one(prog[1], "B"), one(3), two(), one(prog[1] + 1, "C"), one(3)]
+    elif kind == "many":
+        out += [one(prog[2]) for _ in range(prog[1])]
+    elif kind == "bigcells":
+        out += [one(prog[1]) for _ in range(3)]
+    elif kind == "walk":
+        out += [one(sz) for sz in range(prog[1] - 70, prog[1] + 8, 3)] + [two(), one(1)]
+    else:
+        raise ValueError(prog)
+    return out
+
+
+def run_bulk(case):
+    """A long write program through one writer, closed by with / close / flush+close: every record is in the output once, in order,
+    for the independent tool and for the matching reader (what a writer holds back in a buffer, a batch or a cache shows here)."""
+    h = jhash(case)
+    adapter, prog, closing = case["adapter"], case["prog"], case["closing"]
+    d = fresh_dir()
+    viol = []
+    label = "%s:%s" % (adapter, prog[0])
+    try:
+        specs = bulk_specs(prog)
+        records = [recs.build_record(sp) for sp in specs]
+        written = [(r._desc.name, int(r.n)) for r in records]
+        try:
+            w = open_writer(adapter, d, case.get("opt"))
+            if closing == "with":
+                with w:
+                    for r in records:
+                        w.write(r)
+            else:
+                for r in records:
+                    w.write(r)
+                if closing == "flush+close":
+                    w.flush()
+                w.close()
+        except Exception as e:  # noqa: BLE001
+            return {"ev": 1, "h": h, "nt": True, "out": "bulk:%s:raises" % label,
+                    "viol": [("C17:bulk:%s:writing-raises-%s" % (label, type(e).__name__), case, {"error": repr(e)[:200]})]}
+        want = written
+        if adapter == "sqlite":
+            want = written = sorted(written, key=lambda x: x[0])
+        if adapter in ("csvfile", "line", "text"):
+            want = [(adapter.replace("file", ""), n) for _, n in written]
+        try:
+            got = independent(adapter, d)
+            if got != want:
+                lost = len([x for x in want if x not in set(got)])
+                viol.append(("C17:bulk:%s:independent-reader-differs:%s" % (label, "lost" if lost else "order-or-extra"), case, {"written": len(want), "found": len(got), "lost": lost}))
+        except Exception as e:  # noqa: BLE001
+            viol.append(("C17:bulk:%s:output-invalid:%s" % (label, type(e).__name__), case, {"error": repr(e)[:200]}))
+        if adapter not in ("line", "text"):
+            try:
+                got = matching_reader(adapter, d)
+                wantm = [("csv/reader", n) for _, n in written] if adapter == "csvfile" else written
+                if adapter == "sqlite":
+                    got = sorted(got, key=lambda x: x[0])
+                if got != wantm:
+                    viol.append(("C17:bulk:%s:reader-differs" % label, case, {"written": len(wantm), "read": len(got)}))
+            except Exception as e:  # noqa: BLE001
+                viol.append(("C17:bulk:%s:reader-raises:%s" % (label, type(e).__name__), case, {"error": repr(e)[:200]}))
+        w = None
+        gc.collect()
+    finally:
+        shutil.rmtree(d, ignore_errors=True)
+    seen = set()
+    v2 = [v for v in viol if not (v[0] in seen or seen.add(v[0]))]
+    return {"ev": len(specs), "h": h, "nt": True, "out": "bulk:%s:%s" % (label, "ok" if not v2 else "bad"), "viol": v2, "count": {"bulk_records": len(specs)}}
+
+
+def bulk_cases(tier):
+    thorough = tier == "thorough"
+    multi = ["stream", "stream.gz", "stream-fileobj", "jsonfile", "sqlite", "line", "text", "archive"] + (["stream.bz2", "stream.lz4", "stream.zst"] if thorough else ["stream.zst"])
+    single = ["avro", "csvfile"]
+    sizes = [65536 - 64, 65536, 100000, 200000] + ([4096, 8192, 131072, (1 << 20) + 3] if thorough else [])
+    for closing in ("with", "close", "flush+close"):
+        for a in multi:
+            for pad in (0, 20, 40, 60) if (a.startswith("stream") or a in ("jsonfile", "archive")) else (0,):
+                nhot = (140 if a == "sqlite" else 1030 if closing != "flush+close" or thorough else 300)
+                yield {"kind": "bulk", "adapter": a, "prog": ["hot", nhot, pad], "closing": closing}
+            for size in sizes:
+                for k in (0, 1, 3):
+                    yield {"kind": "bulk", "adapter": a, "prog": ["bigmix", size, k], "closing": closing}
+        for a in multi + single:
+            for size in sizes:
+                yield {"kind": "bulk", "adapter": a, "prog": ["bigknown", size, 2], "closing": closing} if a not in single else \
+                    {"kind": "bulk", "adapter": a, "prog": ["bigcells", size], "closing": closing}
+            yield {"kind": "bulk", "adapter": a, "prog": ["many", 3000 if not thorough else 70000, 50], "closing": closing}
+            if a not in single:
+                yield {"kind": "bulk", "adapter": a, "prog": ["walk", 65536], "closing": closing}
+        for a in ("split+stream", "split+jsonfile"):
+            for size in sizes[:4]:
+                yield {"kind": "bulk", "adapter": a, "prog": ["bigmix", size, 3], "closing": closing}
+        yield {"kind": "bulk", "adapter": "sqlite", "prog": ["many", 2500, 10], "closing": closing, "opt": "batch_size=1000"}
+        yield {"kind": "bulk", "adapter": "sqlite", "prog": ["many", 2001, 10], "closing": closing}
+
+
 def run_case(case):
+    if case["kind"] == "bulk":
+        return run_bulk(case)
     if case["kind"] == "life":
         return run_life(case)
     if case["kind"] == "split":
@@ -454,6 +578,8 @@ def run_rotation(case):
         tmpl = os.path.join(d, {"hour": "{name}-{record._generated:%Y%m%dT%H}.records.gz",
                                 "minute": "{name}-{record._generated:%Y%m%dT%H%M}.records.gz",
                                 "field": "{name}-{record._generated:%Y%m%dT%H}-{record.s}.records.gz",
+                                "field-samesec": "{name}-{record._generated:%Y%m%dT%H}-{record.s}.records.gz",
+                                "micro": "{name}-{record._generated:%Y%m%dT%H%M%S.%f}.records",
                                 "offset": "{name}-{record._generated:%Y%m%dT%H}.records.gz",
                                 "dayshift": "{name}-{record._generated:%Y%m%dT%H}.records.gz",
                                 "zst": "{name}-{record._generated:%Y%m%dT%H}.records.zst",
@@ -497,13 +623,18 @@ def run_rotation(case):
                 if tkind == "offset":
                     # +05:30: h1 -> 11:50 local (06:20Z), h2 -> 12:10 local (06:40Z), h3 -> 12:50 local (07:20Z): one UTC hour holds two local hours
                     ts = {"h1": "dt(2021,5,5,11,50,%d,tz=off(5,30))", "h2": "dt(2021,5,5,12,10,%d,tz=off(5,30))", "h3": "dt(2021,5,5,12,50,%d,tz=off(5,30))"}[hb] % i
+                if tkind == "field-samesec":  # all records of an hour carry the very same timestamp and differ in the field only
+                    ts = "dt(2021,5,5,%d,0,0,tz=UTC)" % hours[hb]
+                if tkind == "micro":  # ... or differ in the microseconds only
+                    ts = "dt(2021,5,5,%d,0,0,%d,tz=UTC)" % (hours[hb], 250000 * (i % 4))
                 sval = "k%d" % (i % 2)
                 r = recs.build_record(rs("w/one", [["string", "s"], ["varint", "n"]], ["'%s'" % sval, str(i)], _generated=ts))
                 w.write(r)
                 prefix_ = {"dayshift": "2021/05/05/records-20210505T%s" % {"h1": "00", "h2": "01", "h3": "23"}[hb], "offset": "records-20210505T%s" % {"h1": "11", "h2": "12", "h3": "12"}[hb], "zst": "records-20210505T%02d" % hours[hb],
                            "noext": "records-20210505T%02d" % hours[hb], "dotted": "records.v1.2-20210505T%02d" % hours[hb],
                            "hour": "records-20210505T%02d" % hours[hb], "minute": "records-20210505T%02d%02d" % (hours[hb], i),
-                           "field": "records-20210505T%02d-%s" % (hours[hb], sval)}[tkind]
+                           "field": "records-20210505T%02d-%s" % (hours[hb], sval), "field-samesec": "records-20210505T%02d-%s" % (hours[hb], sval),
+                           "micro": "records-20210505T%02d0000.%06d" % (hours[hb], 250000 * (i % 4))}[tkind]
                 written.append((("w/one", i), prefix_))
             w.close()
         except Exception as e:  # noqa: BLE001
@@ -552,6 +683,7 @@ def run_rotation(case):
 
 
 def cases(tier, seed):
+    yield from bulk_cases(tier)
     depth = 5 if tier == "thorough" else 4
     for adapter in ADAPTERS:
         for k in range(1, depth + 1):
@@ -608,7 +740,7 @@ def cases(tier, seed):
             for tk in ("offset", "zst"):
                 for seq in itertools.product(["h1", "h2", "h3"], repeat=k):
                     yield {"kind": "rotation", "seq": list(seq), "pre": False, "clock": "advances", "template": tk}
-            for tk in ("minute", "field"):
+            for tk in ("minute", "field", "field-samesec", "micro"):
                 for seq in itertools.product(["h1", "h2"], repeat=k):
                     yield {"kind": "rotation", "seq": list(seq), "pre": False, "clock": "advances", "template": tk}
             # file names without an extension / with dots in the stem, rotated repeatedly within one clock second
